@@ -61,6 +61,7 @@ func checkC20(c *Ctx) {
 	c.Clause("Get removes the connection from idle before returning it, in the same critical section (exclusive hand-out)")
 	c.Clause("Get returns only connections with since(lastUsed) ≤ idleTimeout; stale ones are closed, not returned")
 	c.Clause("Put appends only while len(idle) < maxIdle; a rejected connection is closed")
+	c.Clause("Close closes the connection it is given on every path")
 	c.Clause("Shutdown closes every idle connection of every pool under both locks and replaces the pool map")
 	c.NotDecided("byte-exact relaying (inside net/http/httputil); pool histories against a reference model")
 
@@ -131,6 +132,28 @@ func checkC20(c *Ctx) {
 						if !closed {
 							return "stale connection dropped without being closed"
 						}
+					}
+				}
+			}
+			return ""
+		})
+	cl := p.Fn("internal/loadbalancer", "WebSocketPool", "Close")
+	c.traceRule("close-always-closes", "loadbalancer.(*WebSocketPool).Close", cl, c.poolSpec(),
+		"a non-nil connection handed to Close is closed on every path, whether or not its backend has a pool entry; the active count never goes below zero",
+		func(t *Trace) string {
+			if t.Exit != ExitNormal {
+				return ""
+			}
+			if r, _, ok := c.findRel(t, "param:conn", "", 0, -1); ok && !r.Neq && r.Lo == 0 && r.Hi == 0 && r.Pred == "" {
+				return "" // nil connection: nothing to close
+			}
+			if !t.Has("close(param:conn)") {
+				return "a path through Close returns without closing the connection it was given (leaked socket: never closed by Shutdown either, since it is not in the pool)"
+			}
+			for i, it := range t.Items {
+				if strings.HasPrefix(it.Label, "store active := ") {
+					if r, _, ok := c.findRel(t, "fld:"+poolT+"active", "", 0, i); !ok || !(r.Lo >= 1) {
+						return "active is decremented without having been found positive"
 					}
 				}
 			}
@@ -254,6 +277,7 @@ func (c *Ctx) poolShutdown() {
 
 func checkC19(c *Ctx) {
 	p := c.P
+	c.Clause("the locks Stop takes (pool registry, per-backend pools) are acquired in one consistent order everywhere and never re-acquired while held")
 	c.Clause("Stop: cancel() precedes healthCheckWg.Wait() precedes wsPool.Shutdown(); shutdownGracefully: server.Shutdown(ctx with timeout) precedes lb.Stop(), the error edge falls back to server.Close()")
 	c.Clause("probes carry the balancer context (NewRequestWithContext(lb.ctx)), test ctx.Done() first and use a client with a non-zero timeout")
 	c.Clause("every healthCheckWg.Add runs in a goroutine that Stop joins through the same WaitGroup (or before any goroutine exists)")
@@ -346,6 +370,9 @@ func checkC19(c *Ctx) {
 	c.probeContext()
 	c.waitGroupJoinable()
 	c.poolShutdown()
+	// Stop takes the pool locks: they must be ordered consistently everywhere, or Stop can deadlock
+	// against a cleanup tick
+	lockOrder(c, "WebSocketPool.mu", "connPool.mu", "LoadBalancer.mutex")
 	lockDiscipline(c, func(k string) bool {
 		return k == "loadbalancer.LoadBalancer.ctx" || k == "loadbalancer.LoadBalancer.cancel"
 	})
